@@ -13,7 +13,7 @@ Python only renders nothing and computes nothing: it shuttles lines, parses repo
 Finding keys:  <function>:<kind>:<shape>   function = library function the driver was inside,
 kind = oob-read | oob-write | stack-/global-oob-* | segv | negative-size | ubsan-* | timeout | SPAN(<field>) |
 accepts-malformed | wrong-result, shape = class of the input computed by the spec."""
-import os, re, json, time, threading
+import os, re, json, time, threading, hashlib
 from concurrent.futures import ThreadPoolExecutor
 from rig import common
 from rig.common import hexs
@@ -122,10 +122,12 @@ def run_gen(g, seed):
         raise common.Infra("%s/%s: an invariant of the REFERENCE failed inside TLC (spec bug, not a code verdict): %s\n%s"
                            % (g.module, g.cfg, r.violation, r.out[-2500:]))
     raw = common.tlc_printed_json(r.out)
+    r.out = r.out[-3000:]
     seen = set(); cases = []
     for c in raw:
-        k = json.dumps(c, sort_keys=True)
+        k = hashlib.blake2b(json.dumps(c, sort_keys=True).encode(), digest_size=10).digest()
         if k not in seen: seen.add(k); cases.append(c)
+    del raw, seen
     if g.sim is None:
         if len(cases) != r.distinct:
             raise common.Infra("%s/%s: corpus emission lost cases: %d printed vs %d distinct" % (g.module, g.cfg, len(cases), r.distinct))
@@ -140,6 +142,7 @@ def run_gen(g, seed):
 # Ops that make several library calls are split into phases (last argument) so that one faulting call
 # does not hide the calls after it.
 def b(c): return hexs(bytes(c["bytes"]))
+def slim(c): return {k: v for k, v in c.items() if k not in ("bytes", "stream", "items", "walks", "fields", "opts")}
 
 def mk_dns_name(c):
     out = []; hx = b(c)
@@ -156,20 +159,20 @@ def mk_dns_name(c):
         out.append(("dns_lbl %s 1" % hexs(body), {"op": "dns_lbl1", "shape": sh}))
     return out
 def mk_dns_msg(c):
-    hx = b(c)
+    hx = b(c); c = slim(c)
     out = [("dns_msg %s 0" % hx, {"op": "dns_msg0", "shape": c["why"], "c": c}),
            ("dns_msg %s 1" % hx, {"op": "dns_msg1", "shape": c["q12"], "c": c}),
            ("dns_msg %s 2" % hx, {"op": "dns_msg2", "shape": c["rr12"], "c": c})]
     if c["ok"]: out.append(("dns_msg %s 3" % hx, {"op": "dns_msg3", "shape": c["why"], "c": c}))
     return out
 def mk_rad(c):
-    hx = b(c)
+    hx = b(c); c = slim(c)
     out = [("rad %s 0" % hx, {"op": "rad0", "shape": c["why"], "c": c})]
     if not c["must_err"]:
         out += [("rad %s %d" % (hx, ph), {"op": "rad%d" % ph, "shape": c["why"], "c": c}) for ph in (1, 2, 3, 4, 5)]
     return out
 def mk_simple(op):
-    def f(c): return [("%s %s" % (op, b(c)), {"op": op, "shape": c["why"], "c": c})]
+    def f(c): return [("%s %s" % (op, b(c)), {"op": op, "shape": c["why"], "c": slim(c)})]
     return f
 PHASES = {"http_req": (None,), "http_resp": (None,), "http_chk": (None,), "http_hdr": (0, 1, 2), "http_qry": (0, 1),
           "wsp": (0, 1, 2, 3, 4), "sdp": (0, 1, 2)}
@@ -180,7 +183,7 @@ def mk_text(c):
         return [("http_url %s %d" % (hx, cap), {"op": "http_url", "shape": sh}) for cap in sorted({1, 2, n, n + 1} - {0})]
     return [(("%s %s" % (fam, hx)) if ph is None else ("%s %s %d" % (fam, hx, ph)), {"op": fam, "shape": sh}) for ph in PHASES[fam]]
 def mk_ts(c):
-    one = bytes(c["bytes"]); st = bytes(c["stream"]); f = c["fields"]
+    one = bytes(c["bytes"]); st = bytes(c["stream"]); f = c["fields"]; c = slim(c)
     out = []
     if f["pre"] == 0 and f["cut"] == 0:
         out += [("ts %s 0" % hexs(one), {"op": "ts", "shape": c["why"], "c": c}),
@@ -242,10 +245,10 @@ def plan(ctx):
         (Gen("dns-msg", "HpDnsMsgGen", "HpDnsMsgGen%s.cfg" % T, xss="64m", workers=(1 if q else 4)), mk_dns_msg),
         (Gen("radius", "HpRadius", "HpRadius%s.cfg" % T, workers=(1 if q else 4)), mk_rad),
         (Gen("dns-name-chain", "HpDnsNameGen", "HpDnsNameGen_chain.cfg", xss="64m"), mk_dns_name),
-        (Gen("dhcp4", "HpDhcp4", "HpDhcp4.cfg"), mk_simple("dhcp")),
-        (Gen("rtp", "HpRtp", "HpRtp.cfg"), mk_simple("rtp")),
-        (Gen("sap", "HpSap", "HpSap.cfg"), mk_simple("sap")),
-        (Gen("mpeg-ts", "HpTs", "HpTs.cfg"), mk_ts),
+        (Gen("dhcp4", "HpDhcp4", "HpDhcp4%s.cfg" % T), mk_simple("dhcp")),
+        (Gen("rtp", "HpRtp", "HpRtp%s.cfg" % T, workers=(1 if q else 2)), mk_simple("rtp")),
+        (Gen("sap", "HpSap", "HpSap%s.cfg" % T), mk_simple("sap")),
+        (Gen("mpeg-ts", "HpTs", "HpTs%s.cfg" % T), mk_ts),
     ]
     n = 1 if q else 8           # simulation volume multiplier
     sims = [
@@ -263,83 +266,90 @@ def run(ctx):
     bt = threading.Thread(target=lambda: exes.update(build(d)))
     bt.start()
     pl = plan(ctx)
-    # TLC: several small JVMs at once, at most 4 worker threads in total
-    t0 = time.time()
-    with ThreadPoolExecutor(max_workers=(3 if ctx.quick else 2)) as ex:
-        futs = [ex.submit(run_gen, g, ctx.seed) for g, _ in pl]
-        for f in futs: f.result()
-    bt.join()
-    if "asan" not in exes or "guard" not in exes: raise common.Infra("driver build failed")
-    ctx.log("TLC: %d runs, %d packets in %.1fs" % (len(pl), sum(len(g.cases) for g, _ in pl), time.time() - t0))
-    if os.environ.get("C13_DEBUG"):
-        for g, _ in pl: ctx.log("  %-18s %6d packets %5.1fs" % (g.label, len(g.cases), g.r.wall))
-    lines = []; metas = []
-    for g, mk in pl:
-        ctx.tlc_stats(g.r, "%s: %s/%s%s" % (g.label, g.module, g.cfg, (" -simulate num=%d seed=%d" % (g.sim, ctx.seed)) if g.sim else ""))
-        ctx.cov["tlc_runs"][-1]["packets_emitted"] = len(g.cases)
-        n0 = len(lines)
-        for c in g.cases:
-            for ln, meta in mk(c):
-                meta["gen"] = g.label; lines.append(ln); metas.append(meta)
-        g.ncases = len(lines) - n0
-    # dedupe identical driver lines (the same bytes reached through two generators keep the first class)
-    seen = {}; L = []; M = []
-    for ln, me in zip(lines, metas):
-        if ln not in seen: seen[ln] = 1; L.append(ln); M.append(me)
-    lines, metas = L, M
-    if os.environ.get("C13_DUMP"): open(os.environ["C13_DUMP"], "w").write("\n".join(lines) + "\n")
-    # guard-page builds first (a fault costs microseconds there); the ASan+UBSan build then runs every case that did
-    # not already fault at the end of its block (each ASan abort costs a process)
-    gmodes = [("guard", "ghi"), ("guard", "glo")]
-    results = {}
-    t0 = time.time()
-    for bm in gmodes:
-        results[bm] = run_driver(exes[bm[0]], bm[1], lines, timeout=(300 if ctx.quick else 1800))
-    surv = [i for i in range(len(lines)) if all(results[bm][i][0] != "X" for bm in gmodes)]
-    budget = 1500 if ctx.quick else 20000
-    ares = run_driver(exes["asan"], "heap", [lines[i] for i in surv], timeout=(400 if ctx.quick else 2400), budget=budget)
-    am = ("asan", "heap"); results[am] = [("S",)] * len(lines)
-    for i, r in zip(surv, ares): results[am][i] = r
-    modes = gmodes + [am]
-    truncated = sum(1 for r in ares if r[0] == "T")
-    ctx.log("driver: %d cases; guard builds %d, ASan build on the %d that did not fault (%d not run: crash budget) in %.1fs"
-            % (len(lines), len(gmodes), len(surv), truncated, time.time() - t0))
-
+    gmodes = [("guard", "ghi"), ("guard", "glo")]; am = ("asan", "heap"); modes = gmodes + [am]
+    budget = 1500 if ctx.quick else 6000                 # ASan aborts per generator
+    known = {k["key"] for k in common.known_open(ctx.prop)}
     fails = {}      # key -> [count, first line, detail, builds]
     def note(key, line, detail, build):
         e = fails.setdefault(key, [0, line, detail, set()]); e[0] += 1; e[3].add(build)
-    refused_valid = 0; crashes = 0
-    per_gen = {}
-    for i, (ln, meta) in enumerate(zip(lines, metas)):
-        st = per_gen.setdefault(meta["gen"], {"cases": 0, "crashing": 0, "accepted": 0})
-        st["cases"] += 1
-        crashed = any(results[bm][i][0] == "X" for bm in modes)
-        for bm in modes:
-            r = results[bm][i]; bname = "%s/%s" % bm
-            if r[0] in ("S", "T"): continue
-            if crashed and r[0] != "X": continue      # the case is reported once, by its fault
-            if r[0] == "X":
-                note("%s:%s:%s" % (r[1], r[2], meta["shape"]), ln, "build %s\ncase %s\n%s" % (bname, ln, r[3]), bname)
-                continue
-            f = r[1]
-            if "span" in f:
-                fn, field = f["span"].split("/", 1)
-                note("%s:SPAN(%s):%s" % (fn, field, meta["shape"]), ln, "build %s\ncase %s\nanswer %s" % (bname, ln, f), bname)
-            try:
-                v = None if "span" in f else cmp_case(meta, f)
-            except (KeyError, ValueError) as e:
-                raise common.Infra("unparsable answer for %s: %s (%s)" % (ln, f, e))
-            if v:
-                exp = {k: meta[k] for k in ("w", "ok", "size") if k in meta}
-                if "c" in meta: exp = {k: meta["c"].get(k) for k in ("why", "ok", "offs", "must_err", "must_refuse", "fits", "start", "end") if k in meta["c"]}
-                note("%s:%s:%s" % (v[0], v[1], meta["shape"]), ln, "build %s\ncase %s\nspec %s\nanswer %s" % (bname, ln, exp, f), bname)
-            if bm == modes[0]:
-                if meta["op"] == "dns_name" and meta["w"]["ok"] and meta["cap"] >= len(meta["w"]["name"]) + 2 and int(f["rc"]) != 0:
-                    refused_valid += 1
-                if f.get("rc") == "0" or f.get("valid") == "1": st["accepted"] += 1
-        if crashed: crashes += 1; st["crashing"] += 1
+    tot = {"cases": 0, "evals": 0, "crashing": 0, "refused_valid": 0, "nontriv": 0, "skipped": 0, "truncated": 0, "tlc_s": 0.0, "drv_s": 0.0}
+    per_gen = {}; samples = []; seen_lines = set(); dump = os.environ.get("C13_DUMP")
+    TRIVIAL = ("plain", "compressed", "fits", "struct-ok", "ok", "hdr-full", "ends:text")
+
+    def process(g, mk):
+        """render -> drivers -> compare for ONE generator (keeps memory bounded by the largest corpus)"""
+        ctx.tlc_stats(g.r, "%s: %s/%s%s" % (g.label, g.module, g.cfg, (" -simulate num=%d seed=%d" % (g.sim, ctx.seed)) if g.sim else ""))
+        ctx.cov["tlc_runs"][-1]["packets_emitted"] = len(g.cases)
+        tot["tlc_s"] += g.r.wall
+        lines = []; metas = []
+        for c in g.cases:
+            for ln, meta in mk(c):
+                h = hashlib.blake2b(ln.encode(), digest_size=10).digest()
+                if h in seen_lines: continue          # the same bytes reached twice keep the first class
+                seen_lines.add(h); lines.append(ln); metas.append(meta)
+        g.cases = None
+        if dump: open(dump, "a").write("\n".join(lines) + "\n")
+        t0 = time.time()
+        # guard-page builds first (a fault costs microseconds there); the ASan+UBSan build then runs every case that
+        # did not already fault at an edge of its block (each ASan abort costs a process)
+        results = {}
+        for bm in gmodes:
+            results[bm] = run_driver(exes[bm[0]], bm[1], lines, timeout=(300 if ctx.quick else 1800))
+        surv = [i for i in range(len(lines)) if all(results[bm][i][0] != "X" for bm in gmodes)]
+        ares = run_driver(exes["asan"], "heap", [lines[i] for i in surv], timeout=(400 if ctx.quick else 2400), budget=budget)
+        results[am] = [("S",)] * len(lines)
+        for i, r in zip(surv, ares): results[am][i] = r
+        tot["truncated"] += sum(1 for r in ares if r[0] == "T"); tot["skipped"] += len(lines) - len(surv)
+        tot["drv_s"] += time.time() - t0
+        st = per_gen.setdefault(g.label, {"cases": 0, "crashing": 0, "accepted": 0})
+        for i, (ln, meta) in enumerate(zip(lines, metas)):
+            st["cases"] += 1
+            if meta["shape"] not in TRIVIAL: tot["nontriv"] += 1
+            crashed = any(results[bm][i][0] == "X" for bm in modes)
+            for bm in modes:
+                r = results[bm][i]; bname = "%s/%s" % bm
+                if r[0] in ("S", "T"): continue
+                tot["evals"] += 1
+                if crashed and r[0] != "X": continue      # the case is reported once, by its fault
+                if r[0] == "X":
+                    note("%s:%s:%s" % (r[1], r[2], meta["shape"]), ln, "build %s\ncase %s\n%s" % (bname, ln, r[3]), bname)
+                    continue
+                f = r[1]
+                if "span" in f:
+                    fn, field = f["span"].split("/", 1)
+                    note("%s:SPAN(%s):%s" % (fn, field, meta["shape"]), ln, "build %s\ncase %s\nanswer %s" % (bname, ln, f), bname)
+                try:
+                    v = None if "span" in f else cmp_case(meta, f)
+                except (KeyError, ValueError) as e:
+                    raise common.Infra("unparsable answer for %s: %s (%s)" % (ln, f, e))
+                if v:
+                    exp = {k: meta[k] for k in ("w", "ok", "size") if k in meta}
+                    if "c" in meta: exp = {k: meta["c"].get(k) for k in ("why", "ok", "offs", "must_err", "must_refuse", "fits", "start", "end", "has_pkt") if k in meta["c"]}
+                    note("%s:%s:%s" % (v[0], v[1], meta["shape"]), ln, "build %s\ncase %s\nspec %s\nanswer %s" % (bname, ln, exp, f), bname)
+                if bm == modes[0]:
+                    if meta["op"] == "dns_name" and meta["w"]["ok"] and meta["cap"] >= len(meta["w"]["name"]) + 2 and int(f["rc"]) != 0:
+                        tot["refused_valid"] += 1
+                    if f.get("rc") == "0" or f.get("valid") == "1": st["accepted"] += 1
+            if crashed: tot["crashing"] += 1; st["crashing"] += 1
+        tot["cases"] += len(lines)
+        if lines:
+            i = len(lines) // 2; r0 = results[modes[0]][i]
+            samples.append({"line": lines[i][:200], "shape": metas[i]["shape"], "gen": g.label,
+                            "answer": ({k: v for k, v in r0[1].items() if k != "_op"} if r0[0] == "R" else list(r0[1:3]))})
+        if os.environ.get("C13_DEBUG"):
+            ctx.log("  %-16s %7d packets %7d cases  TLC %5.1fs  drivers %5.1fs" % (g.label, g.r.distinct or len(lines), len(lines), g.r.wall, time.time() - t0))
+
+    # TLC: several small JVMs at once (at most 4 worker threads in total); generators are consumed in plan order
+    with ThreadPoolExecutor(max_workers=(3 if ctx.quick else 2)) as ex:
+        futs = [ex.submit(run_gen, g, ctx.seed) for g, _ in pl]
+        bt.join()
+        if "asan" not in exes or "guard" not in exes: raise common.Infra("driver build failed")
+        for (g, mk), f in zip(pl, futs):
+            f.result(); process(g, mk)
+    ctx.log("%d TLC runs (%.0fs of TLC), %d cases in 3 builds (%.0fs of driver runs); ASan build skipped %d cases that faulted in a guard build, %d not run (crash budget)"
+            % (len(pl), tot["tlc_s"], tot["cases"], tot["drv_s"], tot["skipped"], tot["truncated"]))
+
     # symbolized report for keys that are not registered findings (one re-run per key, ASan build)
-    known = {k["key"] for k in common.known_open(ctx.prop)}
     for key, (cnt, ln, detail, builds) in sorted(fails.items()):
         if key not in known and any(b.startswith("asan") for b in builds) and ":SPAN" not in key:
             env = dict(ENV); env["ASAN_OPTIONS"] = env["ASAN_OPTIONS"].replace("symbolize=0", "symbolize=1")
@@ -347,18 +357,15 @@ def run(ctx):
             _, o = common.sh([exes["asan"], "heap"], stdin=(ln + "\n").encode(), timeout=60, env=env)
             detail += "\n--- symbolized re-run ---\n" + o[-2500:]
         ctx.fail(key, "%d case(s), builds %s; first:\n%s" % (cnt, sorted(builds), detail), {"case": ln, "builds": sorted(builds)})
-    if truncated and all(k in known for k in fails):
-        raise common.Infra("ASan build: crash budget (%d) used up by registered findings only, %d cases not run" % (budget, truncated))
-    nontriv = sum(1 for m in metas if m["shape"] not in ("plain", "compressed", "fits", "struct-ok", "ok", "hdr-full", "ends:text"))
-    ctx.add(evaluations=sum(1 for bm in modes for r in results[bm] if r[0] in ("R", "X")), distinct_nontrivial=nontriv, cases=len(lines),
-            asan_cases_skipped_after_guard_fault=len(lines) - len(surv), asan_cases_not_run_crash_budget=truncated,
-            crashing_cases=crashes, distinct_failure_keys=len(fails), dns_names_valid_but_refused=refused_valid,
+    if tot["truncated"] and all(k in known for k in fails):
+        raise common.Infra("ASan build: crash budget (%d per generator) used up by registered findings only, %d cases not run" % (budget, tot["truncated"]))
+    ctx.add(evaluations=tot["evals"], distinct_nontrivial=tot["nontriv"], cases=tot["cases"],
+            asan_cases_skipped_after_guard_fault=tot["skipped"], asan_cases_not_run_crash_budget=tot["truncated"],
+            crashing_cases=tot["crashing"], distinct_failure_keys=len(fails), dns_names_valid_but_refused=tot["refused_valid"],
             builds=["gcc -O1, PROT_NONE page directly after the block", "gcc -O1, PROT_NONE page directly before the block",
                     "clang -O1 ASan+UBSan, exact-size heap blocks"])
     ctx.cov["per_generator"] = per_gen
-    ctx.add(samples=[{"line": lines[i], "shape": metas[i]["shape"], "gen": metas[i]["gen"],
-                      "answer": ({k: v for k, v in results[modes[0]][i][1].items() if k != "_op"} if results[modes[0]][i][0] == "R" else list(results[modes[0]][i][1:3]))}
-                     for i in range(0, len(lines), max(1, len(lines) // 10))][:10])
+    ctx.add(samples=samples)
     ctx.cov["rule"] = ("cases = reachable states of the Hp* generator specs (exhaustive over the configured item alphabets and "
                        "lengths, plus TLC -simulate traces seeded with VERIF_SEED), each rendered to bytes by the spec and run in every "
                        "build; non-trivial = the spec classifies the packet as hostile (anything but plain/compressed/fits/struct-ok/ok/hdr-full/ends:text); "
@@ -369,5 +376,6 @@ def run(ctx):
         "out-of-bounds accesses are observed (ASan/UBSan red zones, PROT_NONE guard pages), not modelled; reading the byte AT buf+size counts as outside",
         "RADIUS attribute walkers are only called on packets radius_pkt_chk accepted, with the message = the first `length` bytes (their documented contract)",
         "offset arguments are caller-chosen positions that a caller really reaches (record/attribute boundaries, including the end position), not arbitrary integers",
+        "a case that faults in one build is reported by that fault only; an open finding therefore hides later misbehaviour of the same function on the same input class",
         "unbounded loops are observed by a 5 s alarm() per case",
     ]
